@@ -17,6 +17,7 @@ from vf.gen import rng_for
 from vf.oracle import daily_formula as F
 
 ID = "C12"
+TECHNIQUE = "runtime monitoring: invariant check of every fitted sub-model and component after real fits (admissibility clauses) + hook on OptimizedResult.__init__ capturing the optimiser's raw vector so that stored-vs-scored curves are compared and attributed"
 LEVEL = "exploration"
 CASE_TIMEOUT = 2400
 RULE = ("generated baselines (heating-only / cooling-only / both / flat, weekday and seasonal regimes, outliers, noise 1-20%, 330-365 days, several "
